@@ -82,6 +82,13 @@ class FaultSchedule(Entity):
 
         for fault, handle in zip(self._faults, self._handles, strict=False):
             fault_events = fault.generate_events(ctx)
+            for event in fault_events:
+                # A window that opened before the simulation starts is already in
+                # effect at the start: apply it then, instead of leaving an event
+                # stamped in the past for the run loop to discard. Creation order
+                # keeps activation ahead of deactivation at the start instant.
+                if event.time < start_time:
+                    event.time = start_time
             handle._events = fault_events
             if handle.cancelled:
                 # Cancelled before the schedule was started: nothing of it may fire
